@@ -4,7 +4,7 @@
 # scratch copy of /verif (/tmp/mutverif, harness path rewritten) are used, so development can go on meanwhile.
 # (The registered way - git -C /repo apply; ./check; git -C /repo checkout -- . - is tools/try_mutant.sh.)
 OUT=$1; shift
-LAB=/tmp/mutverif; WT=/tmp/wt/mut
+LAB=${LAB:-/tmp/mutverif}; WT=${WT:-/tmp/wt/mut}
 mkdir -p $LAB
 rsync -a --delete --exclude .cache --exclude work --exclude .git --exclude evidence /verif/ $LAB/
 sed -i "s#/repo/guard#$WT/guard#" $LAB/harness/Cargo.toml
